@@ -68,6 +68,7 @@ func deepTypes() {
 				{Name: sp("WireFix32"), Field: []*descriptorpb.FieldDescriptorProto{fld("f1", 1, tF32, "", false), fld("f4", 4, tI32, "", false)}},
 				{Name: sp("WireHolder"), Field: []*descriptorpb.FieldDescriptorProto{fld("id", 1, tStr, "", false), fld("ws", 2, tMsg, ".vf.transcode.WireStr", false),
 					fld("wb", 3, tMsg, ".vf.transcode.WireBytes", false), fld("wf", 4, tMsg, ".vf.transcode.WireFix64", false)}},
+				wordsType(sp, fld),
 				{Name: sp("Deep"), Field: []*descriptorpb.FieldDescriptorProto{
 					fld("id", 1, tStr, "", false), fld("root", 2, tMsg, ".vf.transcode.Node", false),
 					fld("value", 3, tMsg, ".google.protobuf.Value", false), fld("st", 4, tMsg, ".google.protobuf.Struct", false),
@@ -85,6 +86,27 @@ func deepTypes() {
 			panic("transcode: deep types: " + err.Error())
 		}
 	})
+}
+
+// reservedWords are field names that look like URL "system parameters",
+// HTTP / RPC vocabulary or literals.
+var reservedWords = []string{"alt", "callback", "fields", "key", "pretty_print", "quota_user", "access_token", "oauth_token", "upload_protocol",
+	"upload_type", "body", "path", "query", "method", "verb", "filter", "select", "format", "id", "name", "type", "value", "json", "proto", "grpc",
+	"http", "null", "true", "false", "user_ip", "trace", "xgafv"}
+
+// wordsType: message Words { string <word> = 1..; Words sub = 60; repeated string keys = 61; }
+func wordsType(sp func(string) *string, fld func(string, int32, descriptorpb.FieldDescriptorProto_Type, string, bool) *descriptorpb.FieldDescriptorProto) *descriptorpb.DescriptorProto {
+	m := &descriptorpb.DescriptorProto{Name: sp("Words")}
+	for i, w := range reservedWords {
+		typ := descriptorpb.FieldDescriptorProto_TYPE_STRING
+		if w == "pretty_print" {
+			typ = descriptorpb.FieldDescriptorProto_TYPE_BOOL
+		}
+		m.Field = append(m.Field, fld(w, int32(i+1), typ, "", false))
+	}
+	m.Field = append(m.Field, fld("sub", 60, descriptorpb.FieldDescriptorProto_TYPE_MESSAGE, ".vf.transcode.Words", false),
+		fld("keys", 61, descriptorpb.FieldDescriptorProto_TYPE_STRING, "", true))
+	return m
 }
 
 func deepRules() []RuleSpec {
